@@ -12,6 +12,7 @@ TECHNIQUE = ('runtime monitoring: per-line reference oracle (the stub network ap
 RULE = ('lists of 0-24 line crops, widths 1..2500 px (beyond 480*batch -> truncated), many equal widths, random pixels; batch sizes 1-16; sparse / dense / tight-crop / no-logits modes; '
         'each list also processed reversed and shuffled; PageOCR.process_page through its real constructor. non-trivial = list with >= 2 lines of different widths; '
         'distinct = hash of (widths, batch size, mode, pixel seed) Restricted-alphabet stub (-inf logits); two-input embedding engine living for the whole run with embed_id re-assigned per case; PageOCR pages of 513-1300 lines. One injected network fault on the long-lived engine; a page recognised again after re-cropping.')
+RULE += ' Round 6: Networks with all scores far below zero; the pixel budget re-assigned after construction.'
 ASSUMPTIONS = ['stub network = Conv2d(kernel (H,4), stride 4) with a blank bias: frame t depends on columns [4t,4t+4) only and all-zero padding decodes to blank (the premise of the property)',
                'float32 logits compared within 1e-4; sparse entries with posterior within +-20 % of 1e-4 are not judged',
                'for truncated lines (padded batch wider than 480*batch) only order-independence and the window start are required']
